@@ -234,7 +234,8 @@ impl BTreeMap<String, SourcedValue> {
     { unimplemented!() }
     #[verifier::external_body]
     pub fn insert(&mut self, k: String, v: SourcedValue) -> (r: Option<SourcedValue>)
-        ensures final(self)@ == old(self)@.insert(k@, v)
+        ensures final(self)@ == old(self)@.insert(k@, v),
+                r == (if old(self)@.contains_key(k@) { Some(old(self)@[k@]) } else { None::<SourcedValue> }),
     { unimplemented!() }
 }
 impl Clone for BTreeMap<String, SourcedValue> {
